@@ -1,7 +1,7 @@
 (* C14, part 3b: the heap invariant and its preservation by _free, _malloc, malloc, free,
    the deferred free and the draining of the pending list. *)
 From Coq Require Import ZArith List Bool Lia ZifyBool Permutation.
-From BV Require Import Lib.PyVal Model.Heap Proofs.HeapLib Proofs.HeapIdx Proofs.HeapGeo.
+From BV Require Import Lib.PyVal Model.Heap Proofs.HeapLib Proofs.HeapIdx Proofs.HeapGeo Proofs.HeapRe.
 Import ListNotations.
 Open Scope Z_scope.
 
@@ -422,16 +422,70 @@ Proof.
     + intros x Hx. apply in_app_or in Hx. destruct Hx as [Hx|[<-|[]]]; auto.
 Qed.
 
+(* ---- a free issued by the same thread from inside malloc / free (a finaliser run by the
+   garbage collector): the lock is not re-entrant, the block is queued (HeapRe.v), and the
+   outer call succeeds and keeps the invariant wherever the finaliser ran ---- *)
+Lemma still_live_after_drain h hd v : In v (alloc h) -> ~ In v (pending h) ->
+  Permutation (alloc h) (rev (pending h) ++ alloc hd) -> In v (alloc hd).
+Proof.
+  intros Hv Hnp HP. eapply Permutation_in in Hv; [|exact HP].
+  apply in_app_or in Hv. destruct Hv as [Hv|Hv]; [|assumption]. apply in_rev in Hv. contradiction.
+Qed.
+
+Lemma malloc_re_ok pg h n p v : pg_ok pg -> HeapInv h -> 0 <= n < maxsize ->
+  In v (alloc h) -> ~ In v (pending h) ->
+  exists b h', malloc_re lock_reentrant pg (Some (p, v)) h n = OK (b, h') /\ HeapInv h'.
+Proof.
+  intros Hpg HInv Hn Hv Hnp. unfold lock_reentrant.
+  assert (Hcase : p = RLocked \/ p <> RLocked) by (destruct p; [left; reflexivity|right; discriminate ..]).
+  destruct Hcase as [->|Hp].
+  - rewrite malloc_re_locked.
+    destruct (malloc_ok pg (free_deferred h v) n Hpg (free_deferred_ok h v HInv Hv Hnp) Hn)
+      as [b [h' [hd [E [_ [HI' _]]]]]].
+    exists b, h'. split; assumption.
+  - rewrite (malloc_re_post pg p v h n Hp).
+    destruct (malloc_ok pg h n Hpg HInv Hn) as [b [h' [hd [E [Ed [HI' [Hp' [_ [Ha _]]]]]]]]].
+    rewrite E. cbn [bind fst snd]. exists b, (free_deferred h' v). split; [reflexivity|].
+    apply free_deferred_ok; [assumption| |rewrite Hp'; intros []].
+    rewrite Ha. right.
+    destruct (drain_ok h HInv) as [hd' [Ed' [_ [_ [_ [_ HP]]]]]]. rewrite Ed in Ed'. inversion Ed'; subst hd'.
+    eapply still_live_after_drain; eassumption.
+Qed.
+
+Lemma free_re_ok h b p v : HeapInv h -> In b (alloc h) -> ~ In b (pending h) ->
+  In v (alloc h) -> ~ In v (pending h) -> v <> b ->
+  exists h', free_re lock_reentrant (Some (p, v)) h b = OK h' /\ HeapInv h'.
+Proof.
+  intros HInv Hb Hnb Hv Hnp Hne. unfold lock_reentrant.
+  assert (Hcase : p = RLocked \/ p <> RLocked) by (destruct p; [left; reflexivity|right; discriminate ..]).
+  destruct Hcase as [->|Hp].
+  - rewrite free_re_locked.
+    destruct (free_ok (free_deferred h v) b (free_deferred_ok h v HInv Hv Hnp)) as [h' [E [HI' _]]].
+    + assumption.
+    + unfold free_deferred, set_pending. cbn [pending]. intros Hin. apply in_app_or in Hin.
+      destruct Hin as [Hin|[Hin|[]]]; [contradiction|congruence].
+    + exists h'. split; assumption.
+  - rewrite (free_re_post p v h b Hp).
+    destruct (free_ok h b HInv Hb Hnb) as [h' [E [HI' [Hp' [_ [_ HP]]]]]].
+    rewrite E. cbn [bind]. exists (free_deferred h' v). split; [reflexivity|].
+    apply free_deferred_ok; [assumption| |rewrite Hp'; intros []].
+    eapply Permutation_in in Hv; [|exact HP]. destruct Hv as [Hv|Hv]; [congruence|].
+    apply in_app_or in Hv. destruct Hv as [Hv|Hv]; [|assumption]. apply in_rev in Hv. contradiction.
+Qed.
+
 (* ---- op sequences ---- *)
 Definition valid_op (h : heap) (o : op) : Prop :=
   match o with
   | Malloc n => 0 <= n < maxsize
   | Free b => In b (alloc h) /\ ~ In b (pending h)
   | FreeDeferred b => In b (alloc h) /\ ~ In b (pending h)
+  | MallocRe n p v => 0 <= n < maxsize /\ In v (alloc h) /\ ~ In v (pending h)
+  | FreeRe b p v => (In b (alloc h) /\ ~ In b (pending h)) /\ (In v (alloc h) /\ ~ In v (pending h)) /\ v <> b
   end.
 
-(* every free in the sequence frees a block that is live at that point and not already
-   waiting in the pending list (i.e. each block is freed at most once) *)
+(* every free in the sequence -- immediate, deferred, or issued from inside another call -- frees a
+   block that is live at that point and not already waiting in the pending list (i.e. each block
+   is freed at most once) *)
 Fixpoint valid_run (pg : Z) (h : heap) (ops : list op) : Prop :=
   match ops with
   | [] => True
@@ -441,12 +495,17 @@ Fixpoint valid_run (pg : Z) (h : heap) (ops : list op) : Prop :=
 Lemma step_ok pg h o : pg_ok pg -> HeapInv h -> valid_op h o ->
   exists x h', step pg h o = OK (x, h') /\ HeapInv h'.
 Proof.
-  intros Hpg HInv Hv. destruct o as [n|b|b]; cbn [valid_op] in Hv; unfold step.
+  intros Hpg HInv Hv. destruct o as [n|b|b|n p v|b p v]; cbn [valid_op] in Hv; unfold step.
   - destruct (malloc_ok pg h n Hpg HInv Hv) as [b [h' [hd [E [_ [HI' _]]]]]].
     rewrite E. cbn [bind]. eauto.
   - destruct Hv as [Hb Hnp]. destruct (free_ok h b HInv Hb Hnp) as [h' [E [HI' _]]].
     rewrite E. cbn [bind]. eauto.
   - destruct Hv as [Hb Hnp]. eexists. eexists. split; [reflexivity|]. apply free_deferred_ok; assumption.
+  - destruct Hv as [Hn [Hv Hnp]]. destruct (malloc_re_ok pg h n p v Hpg HInv Hn Hv Hnp) as [b [h' [E HI']]].
+    rewrite E. cbn [bind]. eauto.
+  - destruct Hv as [[Hb Hnb] [[Hv Hnp] Hne]].
+    destruct (free_re_ok h b p v HInv Hb Hnb Hv Hnp Hne) as [h' [E HI']].
+    rewrite E. cbn [bind]. eauto.
 Qed.
 
 Lemma run_ok pg ops : pg_ok pg -> forall h, HeapInv h -> valid_run pg h ops ->
